@@ -126,7 +126,7 @@ def gen(rng, prop=None):
             elif kind == "fee":
                 f = min(bal[ai], rng.choice([1, U // 1000, U]))
                 bal[ai] -= f
-                rows.append(["OUT", 0, u, off, "FEE", ai, price, 0, f, None, None, None])
+                rows.append(["OUT", 0, u, off, "FEE", ai, rng.choice([price, price, 0]), 0, f, None, None, rng.choice([None, None, 0])])
             else:
                 s = rng.randint(1, bal[ai]) if not over else bal[ai] + rng.choice([1, 5, 6, 11])
                 f = rng.choice([0, 0, min(s - 1, rng.choice([1, U // 1000, U // 10]))]) if s > 1 else 0
@@ -315,8 +315,17 @@ NEEDS = {"C03": ["FeeFiatVisible"], "C04": [], "C05": [], "C06": ["LocalDatesMon
          "C08": ["LocalDatesMonotone"], "C09": ["LocalDatesMonotone"], "C10": ["LocalDatesMonotone"]}
 
 
+def ldm_needed(case):
+    """LocalDatesMonotone only matters where a date cut is applied: with a to-date (the `break` idiom) or a from-date"""
+    return case.get("to") is not None or case.get("from") is not None
+
+
+def ldm_ok(case):
+    return (not ldm_needed(case)) or local_dates_monotone(case)
+
+
 def hypotheses_failed(case, prop):
-    return [h for h in NEEDS.get(prop, []) if not HYPS[h](case)]
+    return [h for h in NEEDS.get(prop, []) if not (ldm_ok(case) if h == "LocalDatesMonotone" else HYPS[h](case))]
 
 
 # ---------------- oracles: transcriptions of the theorem conclusions, on the real output
@@ -413,7 +422,7 @@ def oracle_c05(case, res, guard=True):
 
 
 def oracle_c06(case, res, guard=True):
-    if res["status"] != "ok" or (guard and not local_dates_monotone(case)):
+    if res["status"] != "ok" or (guard and not ldm_ok(case)):
         return None
     rows = {r[1]: r for r in case["rows"]}
     agg = defaultdict(lambda: [F(0)] * 4)
@@ -457,7 +466,7 @@ def flows(case, td):
 
 
 def oracle_c07(case, res, guard=True):
-    if res["status"] != "ok" or (guard and not local_dates_monotone(case)):
+    if res["status"] != "ok" or (guard and not ldm_ok(case)):
         return None
     td = date.fromisoformat(case["to"]) if case["to"] else None
     acq, sent, rec = flows(case, td)
@@ -475,7 +484,7 @@ def oracle_c07(case, res, guard=True):
 
 
 def oracle_c08(case, res, guard=True):
-    if (guard and not local_dates_monotone(case)) or res["status"] == "exhausted" or res["status"].startswith(("error", "crash", "hang")):
+    if (guard and not ldm_ok(case)) or res["status"] == "exhausted" or res["status"].startswith(("error", "crash", "hang")):
         return None
     td = date.fromisoformat(case["to"]) if case["to"] else None
     bal = defaultdict(int)
